@@ -554,14 +554,16 @@ func (r *v1run) finish() {
 	default:
 		// a control call racing with termination panics in v1 (send on closed channel; observation N3, no property):
 		// let pending AddInput/RemoveInput calls return first, helping the scheduler to its top select
-		r.waitFor(600, func() bool {
-			for len(r.held) > 0 {
-				r.release(0)
-			}
-			for r.recv() {
-			}
-			return r.addRmPending() == 0
-		})
+		if r.addRmPending() != 0 {
+			r.waitFor(600, func() bool {
+				for len(r.held) > 0 {
+					r.release(0)
+				}
+				for r.recv() {
+				}
+				return r.addRmPending() == 0
+			})
+		}
 		for c := 1; c <= r.cfg.NC; c++ {
 			if !r.closedIn[c] && !r.parked[c].Load() {
 				r.closeIn(c)
@@ -571,6 +573,8 @@ func (r *v1run) finish() {
 			r.graceReq = true
 			r.ctl("Grace", func() { r.d.GracefulStop(); r.graceRet.Store(true) }, obs{})
 		}
+		// first withhold the releases for a while: GracefulStop must not return while delivered items are unreleased
+		r.waitFor(25, func() bool { return r.graceRet.Load() })
 		ok := r.waitFor(1500, func() bool {
 			for len(r.held) > 0 {
 				r.release(0)
